@@ -90,6 +90,10 @@ func (mgr *blsManager) VerifyAggregatedOne(pubs []PublicKey, m Message, sig Sign
 	if !ok {
 		return ErrInvalidSig
 	}
+	// the pairing code dereferences nil when handed the neutral element of either group
+	if osig.sig.GetPoint().IsZero() || g2pubs.AggregatePublicKeys(originPubs).GetPoint().IsZero() {
+		return ErrSigMismatch
+	}
 	ok = osig.sig.VerifyAggregateCommon(originPubs, m)
 	if ok {
 		return nil
@@ -110,8 +114,14 @@ func (mgr *blsManager) VerifyAggregatedN(pubs []PublicKey, ms []Message, sig Sig
 	if len(originPubs) != len(ms) {
 		return fmt.Errorf("different length of pubs and messages, %d vs %d", len(originPubs), len(ms))
 	}
+	if osig.sig.GetPoint().IsZero() {
+		return ErrSigMismatch
+	}
 	msgs := make([][]byte, len(ms))
 	for i, m := range ms {
+		if originPubs[i].GetPoint().IsZero() {
+			return ErrSigMismatch
+		}
 		msgs[i] = m
 	}
 	ok = osig.sig.VerifyAggregate(originPubs, msgs)
